@@ -322,6 +322,34 @@ pub fn run(ctx: &Ctx, rep: &mut Report) {
             },
         );
     }
+    // F7: every code byte (named, reserved and unassigned classes alike), every message type, small and limit-sized messages
+    {
+        let radices = [256u64, 4, 2, 4];
+        let n = product(&radices);
+        ctx.family(
+            rep,
+            "F7-every-code-byte",
+            "every code byte 0..=255 x message type x token {0,8} x payload {none, 1 byte, 40 bytes, steered to a total of MAX_SIZE}: the limit rule does not depend on what the code means (0.00 alone carries no payload)",
+            n,
+            true,
+            |i, rep| {
+                let d = decode(i, &radices);
+                let code = d[0] as u8;
+                let tkl = [0usize, 8][d[2] as usize];
+                let opts: Vec<(u32, Vec<u8>)> = vec![(11, pattern(5, 2)), (60, vec![1, 2])];
+                let bare = RefMsg { version: 1, mtype: 0, token: pattern(tkl, 7), code: 1, mid: 0, options: opts.clone(), payload: vec![] };
+                let fixed = codec::enc(&bare).unwrap().len() + 1; // + payload marker
+                let pl = match d[3] {
+                    0 => 0,
+                    1 => 1,
+                    2 => 40,
+                    _ => max - fixed,
+                };
+                let m = RefMsg { version: 1, mtype: d[1] as u8, token: pattern(tkl, 7), code, mid: 0x0102, options: opts, payload: pattern(pl, 6) };
+                limit_oracle("F7-every-code-byte", i, n, &m, ctx, rep);
+            },
+        );
+    }
     // F3: option values at and beyond the 16-bit extended length
     {
         let lens = [65803usize, 65804, 65805, 65806, 70_000, 131_341];
